@@ -94,6 +94,10 @@ def list_join_clause(segment: BaseSegment) -> list[BaseSegment]:
             else segment.get_child("from_expression")
         ):
             join_clause = from_expression.get_child("join_clause")
+            bracketed = from_expression.get_child("bracketed")
+            if bracketed is not None and bracketed.get_child("join_clause"):
+                # FROM (a JOIN (SELECT ...) q ON ...): a parenthesised join, not a subquery, whatever it joins
+                join_clause = bracketed.get_child("join_clause")
             if not join_clause:
                 try:
                     next(from_expression.recursive_crawl("select_clause"))
